@@ -184,7 +184,22 @@ type expectation struct {
 }
 
 func (m *model) expect(node int, doc string) expectation {
-	cs := m.docCommits(node, doc)
+	return m.expectOver(m.docCommits(node, doc))
+}
+
+// expectAt is the expected state of the document at commit cid: the commit and its ancestors, each once.
+func (m *model) expectAt(cid string) expectation {
+	c := m.commits[cid]
+	cs := []*commit{c}
+	for a := range c.anc {
+		if m.commits[a].doc == c.doc {
+			cs = append(cs, m.commits[a])
+		}
+	}
+	return m.expectOver(cs)
+}
+
+func (m *model) expectOver(cs []*commit) expectation {
 	e := expectation{known: len(cs) > 0, counters: map[string]float64{}, admiss: map[string]map[string]bool{}, writers: map[string]int{}}
 	for _, f := range counterFields {
 		e.counters[f] = 0
@@ -277,6 +292,9 @@ type sim struct {
 	// fieldProducers: field-level block cid -> nodes that produced it by a local write. A parentless
 	// field block produced independently on two nodes is the trigger of a known head-set defect.
 	fieldProducers map[string]map[int]bool
+	// lastLocal is the document-level commit produced by the local operation just executed ("" for deliveries).
+	lastLocal string
+	noDeletes bool
 	afterChange func(s *sim, node int, docs []string) *hx.Failure
 	onMergeErr  func(s *sim, node int, msg hx.Msg, err error) *hx.Failure
 	docIDs      map[int]string // template -> docID
@@ -310,6 +328,11 @@ type simStats struct {
 	localCommits     int
 	counterIncs      int
 	aeRounds         int
+	ttQueries        int
+	ttNontrivial     int
+	ttMultiParent    int
+	ttCounter        int
+	ttRemote         int
 }
 
 func (s *sim) logf(format string, args ...any) {
@@ -400,6 +423,7 @@ func (s *sim) record(nodeIdx int, kind string, doc string, ops []FieldOp, msgs [
 			}
 			s.m.addMerged(nodeIdx, c.cid)
 			s.stats.localCommits++
+			s.lastLocal = c.cid
 			lastDoc = c
 		} else {
 			// collection-level commit: ancestors = merged collection commits (closed) + the doc commit just made
@@ -483,8 +507,12 @@ func (s *sim) resolveDoc(idx int) (string, bool) {
 }
 
 func (s *sim) exec(st Step) *hx.Failure {
+	s.lastLocal = ""
 	if st.Kind != "deliver" {
 		s.last.valid = false
+	}
+	if st.Kind == "delete" && s.noDeletes {
+		return nil
 	}
 	nodeIdx := st.Node % len(s.cl.Nodes)
 	n := s.cl.Nodes[nodeIdx]
